@@ -403,3 +403,6 @@ PROPS["C18"]["rule"] += "; postcard: `pc` (encoder) and `pcdec` (decoder, value 
 PROPS["C04"]["modules"] = ["Essential.Props.C04", "Essential.Props.C04b"]
 
 PROPS["C18"]["rule"] += "; `conv`: every helper of essential_types::convert (word <-> bytes, 32/64-byte arrays <-> 4/8 words, hex strings incl. upper case, odd lengths and invalid digits, bool) on model and code"
+
+for _p in ("C01", "C03", "C06"):
+    PROPS[_p]["rule"] += "; a sample of the cases is also run through the single-mode public entry points (`api`: check_and_compute_solution_set, check_set_predicates, check_predicate) with an explicitly given post-state view, in single modes and in mode sequences (01, 10, 11, 011) over one shared cache"
